@@ -3,6 +3,7 @@ mod coord;
 mod worker;
 mod decoder;
 mod gen;
+mod golden;
 mod handles;
 mod kernel;
 mod ops;
@@ -65,6 +66,7 @@ fn main() {
             }
             let _ = std::fs::remove_dir_all(&root);
         }
+        "golden-gen" => std::process::exit(golden::golden_gen(&args[2])),
         "worker" => worker::worker_main(&args[2..]),
         "exec" => worker::exec_main(&args[2..]),
         "replay" => std::process::exit(coord::replay_main(&args[2])),
